@@ -41,6 +41,9 @@ def run(check: Check) -> None:
     infer_type_table(check)
     zero_weight(check, facts)
     empty_or_zero(check, facts)
+    from .common import memoisation_rule
+
+    memoisation_rule(check)
     check.exhaustive_parts += ["tsukamoto(0) x accumulation for every monotonic term", "infer_type decision table"]
 
 
